@@ -28,7 +28,7 @@ void harness(void)
 	for (i = 0; i <= N; ++i) s[i] = (char) arg[i];
 	init_options(&o);
 	CHECK(o.overwrite_policy == LHA_OVERWRITE_PROMPT && o.quiet == 0 && o.verbose == 0 && o.dry_run == 0 && o.extract_path == NULL && o.use_path == 1,
-	      "C06: defaults - ask before overwriting, not quiet, real run, stored paths used, current directory");
+	      "C06/C19: defaults - ask before overwriting, not quiet, real run, stored paths used, current directory");
 	ok = parse_options(s, &o);
 
 	i = 0;
@@ -45,13 +45,13 @@ void harness(void)
 		else if (c == 'w') { r_w = (int) (s[i + 1] == '=' ? i + 2 : i + 1); }
 		else r_ok = 0;
 	}
-	CHECK((ok != 0) == (r_ok != 0), "C06: exactly the option letters f i n q v w are accepted");
+	CHECK((ok != 0) == (r_ok != 0), "C06/C19: exactly the option letters f i n q v w are accepted");
 	if (r_ok) {
-		CHECK((int) o.overwrite_policy == r_policy, "C06: f and q select 'overwrite all'");
-		CHECK(o.quiet == r_quiet, "C06: q[digit] sets the quiet level (2 without digit)");
-		CHECK(o.verbose == r_verbose && o.dry_run == r_dry && o.use_path == r_use_path, "C06: v, n, i set verbose, dry-run, ignore-paths");
-		if (r_w < 0) CHECK(o.extract_path == NULL, "C06: no w option - no extract directory");
-		else CHECK(o.extract_path == s + r_w, "C06: w[=]DIR - the rest of the argument is the extract directory");
+		CHECK((int) o.overwrite_policy == r_policy, "C06/C19: f and q select 'overwrite all'");
+		CHECK(o.quiet == r_quiet, "C06/C19: q[digit] sets the quiet level (2 without digit)");
+		CHECK(o.verbose == r_verbose && o.dry_run == r_dry && o.use_path == r_use_path, "C06/C19: v, n, i set verbose, dry-run, ignore-paths");
+		if (r_w < 0) CHECK(o.extract_path == NULL, "C06/C19: no w option - no extract directory");
+		else CHECK(o.extract_path == s + r_w, "C06/C19: w[=]DIR - the rest of the argument is the extract directory");
 	}
 	if (ok && r_w == 3 && s[0] == 'q' && s[1] == '1') WITNESS("q1w=D");
 	if (ok && r_quiet == 2 && r_use_path == 0 && r_dry && r_policy == LHA_OVERWRITE_ALL && r_verbose) WITNESS("all of f/q i n v");
